@@ -210,6 +210,45 @@ def main(argv=None) -> int:
         for cex in r["cex"]:
             pending.append((r, cex))
 
+    # concrete twins of witness inputs (see symx/twin.py): at most MAX_TWINS shapes, spread evenly
+    twin_fails, twins_run = [], 0
+    if getattr(mod, "TWINS", True) and not os.environ.get("VERIF_NO_TWINS"):
+        MAX_TWINS = {"quick": 120, "thorough": 400}[tier]
+        cand = [r for r in results if not r["error"] and r["samples"]]
+        if len(cand) > MAX_TWINS:
+            step = len(cand) / float(MAX_TWINS)
+            cand = [cand[int(i * step)] for i in range(MAX_TWINS)]
+        items = [[r["kernel"], r["shape"], r["samples"][0]["inputs"], sorted({c["label"] for c in r["cex"]})] for r in cand]
+        if items:
+            d = os.path.join(VERIF, "evidence", "replays")
+            os.makedirs(d, exist_ok=True)
+            tw = os.path.join(d, "%s_twins.json" % prop)
+            json.dump(items, open(tw, "w"))
+            env = dict(os.environ)
+            env["PYTHONPATH"] = ":".join(REPO_PATHS + [VERIF])
+            try:
+                pr = subprocess.run([sys.executable, "-m", "symx.twin", modname, tw], capture_output=True, text=True,
+                                    timeout=1800, env=env, cwd=VERIF)
+                out = pr.stdout
+            except subprocess.TimeoutExpired:
+                out = ""
+            for line in out.splitlines():
+                if line.startswith("TWIN-FAIL "):
+                    twin_fails.append(json.loads(line[len("TWIN-FAIL "):]))
+                elif line.startswith("TWINS-RUN "):
+                    twins_run = int(line.split()[1])
+            if not twins_run and pr.returncode != 0:
+                errors.append(dict(kernel="twins", shape={}, error="twin runner failed: " + (pr.stderr or "")[-300:], tb=None))
+    seen_tw = set()
+    for tf in twin_fails:
+        key = (tf["kernel"], tf["label"])
+        if key in seen_tw:
+            continue
+        seen_tw.add(key)
+        # goes through the ordinary replay (which confirms it on the unshimmed code) as an unknown counterexample
+        fake_r = dict(kernel=tf["kernel"], shape=tf["shape"])
+        pending.append((fake_r, dict(label=tf["label"], assignment=tf["assignment"], known=None, notes=["concrete twin of a path witness"])))
+
     # replay: at most MAXR per (kernel, label, known) class, stop replaying a
     # class once one member has reproduced
     MAXR = 3
@@ -290,7 +329,7 @@ def main(argv=None) -> int:
                 # model-checking view: a state = the end state of one explored symbolic path (a path condition with all
                 # its values), a transition = one branch decision taken by the real code on the way
                 states=max(1, int(agg["paths"])), transitions=max(1, int(agg["decisions"])),
-                traces_validated_against_impl=int(n_replay),
+                traces_validated_against_impl=int(n_replay + twins_run),
                 obligations=int(agg["obligations"]), discharged=int(agg["discharged"]),
                 shapes=len(results), shapes_expected_unreachable=unreachable_ok, paths=int(agg["paths"]), infeasible_paths=int(agg["infeasible"]),
                 reachability_witnesses=int(agg["witnesses"]),
@@ -302,7 +341,7 @@ def main(argv=None) -> int:
                 exhaustive=(rc == 0),
                 explanation=("bounded symbolic execution of the implementation; exhaustive over all paths and "
                              "all values inside each shape's bounds"),
-                known_findings_hit=sorted(known_hit), counterexample_models=len(pending), replays_run=n_replay,
+                known_findings_hit=sorted(known_hit), counterexample_models=len(pending), replays_run=n_replay, concrete_twins_run=twins_run,
                 counterexamples=[dict(kernel=v["kernel"], label=v["label"], inputs=v["assignment"],
                                       replay=v["replay"]) for v in violations[:20]],
                 inconclusive=dict(errors=errors[:5], not_exhausted=not_exhausted[:5], vacuous=vacuous[:5],
